@@ -343,7 +343,14 @@ func (ex *Exec) mergeStates(conds []*smt.Term, sts []*State) *State {
 			allocs[a] = true
 		}
 	}
+	var allocList []*ssa.Alloc
 	for a := range allocs {
+		allocList = append(allocList, a)
+	}
+	sort.Slice(allocList, func(i, j int) bool {
+		return ex.valKey(allocList[i]) < ex.valKey(allocList[j])
+	})
+	for _, a := range allocList {
 		var acc *smt.Term
 		for i := len(sts) - 1; i >= 0; i-- {
 			v, ok := sts[i].locals[a]
